@@ -208,12 +208,14 @@ def judge_dir1(chk, fmt, cases, res, faults, leaky):
         try:
             i = int("".join(ch for ch in cid[1:].split("b")[0] if ch.isdigit()))
             c = cases[i]
-            rope = c["bad"][int(cid.split("b")[1])]["s"] if "b" in cid[1:] else c["s"]
+            isbad = "b" in cid[1:]
+            rope = c["bad"][int(cid.split("b")[1])]["s"] if isbad else c["s"]
+            cap = c["bad"][int(cid.split("b")[1])]["cap"] if isbad else c["n"] + (1 if cid.endswith("w") else 0)
             lb, stream = last_byte(rope), rope_str(rope)
         except Exception:
-            pass
-        chk.violation(cl.fault_sig(dec, f, lb), "fault in %s decompress: %s on stream %s" % (fmt, f.signature(), stream[:300]),
-                      {"fmt": fmt, "stream": stream, "stderr": getattr(f, "stderr", "")[-1500:]})
+            cap = 0
+        chk.violation(cl.fault_sig(dec, f, lb), "fault in %s decompress: %s on stream %s (capacity %d)" % (fmt, f.signature(), stream[:300], cap),
+                      {"fmt": fmt, "stream": stream, "cap": cap, "stderr": getattr(f, "stderr", "")[-1500:]})
     for cid in leaky:
         chk.violation("%s:leak" % dec, "leak after %s decompress case %s" % (fmt, cid), cid)
     chk.part(fmt + "-spec-to-impl", valid_streams=n_valid, invalid_streams=n_bad, lenient_rejected=n_lenient_rej,
@@ -299,11 +301,12 @@ def judge_bytes(chk, fmt, cases, res, faults, leaky):
         lb, stream = None, "?"
         try:
             i = int(f.case_id[1:].split("_")[0])
-            lb, stream = (cases[i]["s"][-1] if cases[i]["s"] else None), bytes(cases[i]["s"]).hex()
+            lb, stream = (cases[i]["s"][-1] if cases[i]["s"] else None), bytes_rope(cases[i]["s"])
+            cap = int(f.case_id.split("_")[1])
         except Exception:
-            pass
-        chk.violation(cl.fault_sig(dec, f, lb), "fault in %s decompress: %s on stream %s" % (fmt, f.signature(), stream),
-                      {"fmt": fmt, "stream": stream, "stderr": getattr(f, "stderr", "")[-1500:]})
+            cap = 0
+        chk.violation(cl.fault_sig(dec, f, lb), "fault in %s decompress: %s on stream %s (capacity %d)" % (fmt, f.signature(), stream, cap),
+                      {"fmt": fmt, "stream": stream, "cap": cap, "stderr": getattr(f, "stderr", "")[-1500:]})
     for cid in leaky:
         chk.violation("%s:leak" % dec, "leak after %s decompress case %s" % (fmt, cid), cid)
     chk.part(fmt + "-byte-strings", executed=n, must_accept=acc, must_reject=rej, strings=len(cases), faults=len(faults))
